@@ -280,7 +280,11 @@ func (idx *MemoryIndex) genOffsetHash() error {
 	for firstLevel, fanoutValue := range idx.Fanout {
 		mappedFirstLevel := idx.FanoutMapping[firstLevel]
 		for secondLevel := uint32(0); i < fanoutValue; i++ {
-			_, err = hash.Write(idx.Names[mappedFirstLevel][secondLevel*uint32(idx.idSize()):])
+			// Exactly one name: Write copies as many bytes as the hash array
+			// holds, so an open-ended slice would leave the next name's
+			// bytes behind the ID of a SHA-1 entry.
+			start := secondLevel * uint32(idx.idSize())
+			_, err = hash.Write(idx.Names[mappedFirstLevel][start : start+uint32(idx.idSize())])
 			if err != nil {
 				return fmt.Errorf("cannot write name to hash: %w", err)
 			}
@@ -428,7 +432,8 @@ func (i *idxfileEntryIter) Next() (*Entry, error) {
 		mappedFirstLevel := i.idx.FanoutMapping[i.firstLevel]
 		entry := new(Entry)
 		entry.Hash.ResetBySize(i.idx.idSize())
-		_, err := entry.Hash.Write(i.idx.Names[mappedFirstLevel][i.secondLevel*i.idx.idSize():])
+		start := i.secondLevel * i.idx.idSize()
+		_, err := entry.Hash.Write(i.idx.Names[mappedFirstLevel][start : start+i.idx.idSize()])
 		if err != nil {
 			return nil, fmt.Errorf("cannot write entry hash: %w", err)
 		}
